@@ -238,16 +238,35 @@ def instance_skipped_only_for_documented_reasons(ctx):
             if an["k"] == "if" and "c" in an:
                 in_then = an.get("then") is not None and (an["then"] == i or i in set(ro.walk(an["then"])))
                 facts += cn.decompose(an["c"], in_then)
-        ok = False
-        for k, p in facts:
+        def documented(k, p):
             if not isinstance(k, str) or p is not False:
-                continue
+                return False
             base = re.sub(r"^\*|\.has_value\(\)$|\.value\(\)$|\.operator bool\(\)$", "", k)
             if base in opened or base in probes or k.startswith("this->registerRunnableRulesetForCgroupPath("):
-                ok = True
+                return True
             # the xattr test moved into a helper: a call that is handed the opened directory and the filter's name
-            if "(" in k and "xattr_filter_" in k and any(re.search(r"(?<![\w.])%s(?![\w])" % re.escape(o_), k) for o_ in opened):
-                ok = True
+            return "(" in k and "xattr_filter_" in k and any(re.search(r"(?<![\w.])%s(?![\w])" % re.escape(o_), k) for o_ in opened)
+        ok = any(documented(k, p) for k, p in facts)
+        if not ok:
+            # the test sits in a multi-exit helper that was folded in (`if (!passesFilter(dir, cgroup)) continue;`): every exit of the
+            # folded body that makes the condition take this branch has to carry a documented reason
+            for a in ro.ancestors(i):
+                if a == L["stmt"]:
+                    break
+                an = ro.nodes[a]
+                if an["k"] != "if" or "c" not in an:
+                    continue
+                in_then = an.get("then") is not None and (an["then"] == i or i in set(ro.walk(an["then"])))
+                for x in ro.walk(an["c"]):
+                    xn = ro.nodes[x]
+                    if xn.get("k") == "other" and xn.get("cls") == "InlinedCall" and xn.get("rets"):
+                        pol = [p for k, p in cn.decompose(an["c"], in_then) if isinstance(k, str) and k.startswith("InlinedCall(")]
+                        if len(pol) == 1 and isinstance(pol[0], bool):
+                            paths = inlined_condition_paths(ro, cn, x, pol[0])
+                            if paths and all(any(documented(k, p) for k, p in fs_) for fs_ in paths):
+                                ok = True
+                            else:
+                                facts = facts + [f_ for fs_ in paths for f_ in fs_]
         ctx.check(ok, "instance-skipped-only-for-documented-reasons", "guarded_by (lexical)", ro.loc(i),
                   "a matching cgroup is passed over only when it cannot be opened, fails the xattr filter or its instance cannot be created",
                   "a cgroup that still matches the ruleset's pattern is passed over under %s: its instance is dropped by the sweep together with its "
